@@ -94,6 +94,11 @@ CLAIMED = {
    text="Decides: Map/ForEach/Reduce scan forward and ForEachRight backward, completely, calling the callback exactly once per iteration on the element just read (Map stores fn(v) at v's index, Reduce threads the accumulator); Filter, DropWhile, DropRightWhile, Partition place the element just read under exactly the promised decision and mapByIndex/GroupBy appends origSlice[i] to the group of key i; Reject splices s[:i]+s[i+1:] exactly under fn(s[i]) and re-examines i; Merge appends s then each further slice in argument order onto fresh storage; Flatten's accumulator grows by appends only and malformed nesting is an error; Shuffle copies the whole input and then only swaps cells of the copy, Reverse/ReverseStr only swap in a two-pointer walk; Zip/Unzip store result[a][b] = slices[b][a] with both indices scanning completely behind the shape rejections; Chunk appends only non-empty windows starting at multiples of size and rejects size <= 0; Drop re-slices only under Abs(n) < len on the promised side. Window arithmetic beyond that, uniformity and involution are not decided.",
    note="Trusted: go/ssa; Go append/copy/re-slice semantics; callbacks pure.",
    ref="DESIGN.md section 3 E3/E4, section 4 C12"),
+ "C03": dict(
+   technique="transposition-only (permutation) rules, effect rules (no write / must write), must-store-on-every-path, linear-form algebra of the implicit-tree index maps, symbolic length offset tracking for re-sift bounds, structure rules of sift-up/sift-down on go/ssa over heap/*.go",
+   text="Decides conservation and structure: FromSlice, Convert, Sort, moveUp, moveDown move elements only through swap (they permute); Push appends each argument exactly once and sifts the new slot up; Pop reads the root under the non-empty guard before overwriting it with the last element, shortens by exactly one and re-sifts slot 0; Delete shortens by one only where getIndex found the value and reports absence otherwise without writing; Merge builds a fresh heap by Push of the elements and writes neither input, Meld empties both on every path; Convert stores the new comparator on every path before re-heapifying bottom-up; no element ordering except through the comparator; parent inverts leftChild/rightChild as linear forms and FromSlice's inlined children agree; moveDown compares the right child with the better of node and left child, recurses at the slot it swapped with and reads children only below n; a re-sift bound never provably exceeds the live length (BD1); the slot filled with a foreign element is the slot re-sifted (RS1; one known finding in Delete); no untracked state. The heap-order invariant after arbitrary histories and Sort's direction are not decided.",
+   note="Trusted: go/ssa; strict-ordering comparator; locking is C01/C02. Known finding: Delete re-sifts slot 0 instead of the victim's slot (pinned TestHeap_MaxHeap asserts the resulting layout).",
+   ref="DESIGN.md section 3 E2/E7 (AG9, BD1), section 4 C03"),
 }
 
 NOT_YET = "check not built yet (static-analysis engines under construction; see DESIGN.md section 7)"
